@@ -1,6 +1,7 @@
 import OmbottModel.Model.Forms
 import OmbottModel.Model.BodyAccess
 import OmbottModel.Lemmas.FormsRoundtrip
+import OmbottModel.Props.C06
 import OmbottModel.Gen.Forms
 /-!
 C07 — Multipart forms and uploads round-trip exactly.
@@ -38,14 +39,51 @@ theorem boundary_table_tie :
 
 /-! ### the property -/
 
-/-- **Hypothesis shared with C06** (not an axiom): the markup that `MultipartMarkup.parse` builds
-from these chunks for the encoded body is exactly the encoder's sections, and no error is recorded.
-This is C06's `section_ranges_exact` (one piece) together with `markup_split_independent` (any
-other chunking) for well-formed bodies, i.e. whenever no value contains the delimiter
-(`Spec.WFBody`); `Props/C06.lean` discharges it. -/
+/-- the markup that `MultipartMarkup.parse` builds from these chunks is exactly the encoder's
+sections, and no error is recorded -/
 def MarkupExact (b : Bytes) (parts : List Spec.Part) (chunks : List Bytes) : Prop :=
   ∀ s0, St.init b = .ok s0 →
     (feed s0 chunks).markups = Spec.expectedMarkups b parts ∧ (feed s0 chunks).error = none
+
+/-- no value contains the delimiter `CRLF--boundary` (what a client guarantees by its choice of
+the boundary) -/
+def NoDelim (boundary : Str) (fields : List Field) : Prop :=
+  ∀ f ∈ fields, findSub (Spec.delim (utf8Encode boundary)) f.data = none
+
+instance (b : Str) (fs : List Field) : Decidable (NoDelim b fs) := by unfold NoDelim; infer_instance
+
+/-- the parts of a field list of the domain form a well-formed body in the sense of C06 -/
+theorem wfBody_fields (boundary : Str) (fields : List Field) (hb : LegalBoundary boundary)
+    (hf : ∀ f ∈ fields, FieldOK f) (hnd : NoDelim boundary fields) :
+    Spec.WFBody (utf8Encode boundary) (fields.map Field.part) := by
+  refine ⟨cr_not_mem_utf8Encode boundary (fun h => (hb.2 _ h).2.2.2 rfl), ?_⟩
+  intro p hp
+  obtain ⟨f, hfm, rfl⟩ := List.mem_map.mp hp
+  have hl := headerLines_ok f (hf f hfm)
+  refine ⟨by simpa [Field.part] using hl.1, ?_, hnd f hfm⟩
+  intro l hlm
+  simp only [Field.part, List.mem_map] at hlm
+  obtain ⟨line, hline, rfl⟩ := hlm
+  obtain ⟨hne, hnb⟩ := hl.2 line hline
+  refine ⟨fun h => hne (utf8Encode_eq_nil line h), ?_, ?_⟩
+  · exact cr_not_mem_utf8Encode line (fun h => by have := hnb _ h; simp [isLineBreak] at this)
+  · exact lf_not_mem_utf8Encode line (fun h => by have := hnb _ h; simp [isLineBreak] at this)
+
+/-- **`MarkupExact` is discharged by C06** (`section_ranges_exact`): for every field list of the
+domain whose values do not contain the delimiter, in whatever chunks the encoded body arrives -/
+theorem markupExact_of_c06 (boundary : Str) (fields : List Field) (epilogue : Bytes) (chunks : List Bytes)
+    (hb : LegalBoundary boundary) (hf : ∀ f ∈ fields, FieldOK f) (hnd : NoDelim boundary fields)
+    (hbody : chunks.flatten = encodeForm boundary fields epilogue) :
+    MarkupExact (utf8Encode boundary) (fields.map Field.part) chunks := by
+  intro s0 hs0
+  have h := section_ranges_exact (utf8Encode boundary) (fields.map Field.part) epilogue
+    (wfBody_fields boundary fields hb hf hnd) chunks hbody
+  unfold parseChunks at h
+  rw [hs0] at h
+  simp only [Except.ok.injEq] at h
+  have h1 := congrArg Obs.markups h
+  have h2 := congrArg Obs.error h
+  exact ⟨h1, h2⟩
 
 theorem lowerCT_multipart (boundary : Str) (quote : Bool) (cl : Int) (fr : Except FrErr (List Bytes)) :
     startsWithS (lowerCT ⟨some (contentTypeFor boundary quote), cl, fr⟩) cs!"multipart/" = true := by
@@ -75,13 +113,15 @@ every epilogue, every `max_memfile_size` that covers the header blocks and the t
 body (either framing): reading `POST` succeeds, and under every key `POST` shows exactly the fields
 of that name in submission order, `forms` the text fields, `files` the uploads — an upload with its
 name, raw file name, content type and the exact bytes; a name used once is stored bare, a repeated
-one as a list.  The markup of the encoded body is the hypothesis `MarkupExact` (C06). -/
+one as a list.  The only condition on the values is that none contains the delimiter
+`CRLF--boundary` (`NoDelim`); the markup of the encoded body comes from C06
+(`section_ranges_exact`, via `markupExact_of_c06`). -/
 theorem form_roundtrip (boundary : Str) (quote : Bool) (fields : List Field) (epilogue : Bytes)
     (chunks : List Bytes) (cl : Int) (maxMemfile : Nat) (emap : List (String × Nat)) (jl : JLoads)
     (hb : LegalBoundary boundary)
     (hf : ∀ f ∈ fields, FieldOK f) (hbud : textBudget fields ≤ maxMemfile)
-    (hbody : chunks.flatten = encodeForm boundary fields epilogue)
-    (hmk : MarkupExact (utf8Encode boundary) (fields.map Field.part) chunks) :
+    (hnd : NoDelim boundary fields)
+    (hbody : chunks.flatten = encodeForm boundary fields epilogue) :
     ∃ post forms files : FDict,
       postOf ⟨maxMemfile, emap⟩ jl ⟨some (contentTypeFor boundary quote), cl, .ok chunks⟩ =
         ⟨.fields files, some (.fields forms), .ok (.fields post)⟩ ∧
@@ -98,7 +138,7 @@ theorem form_roundtrip (boundary : Str) (quote : Bool) (fields : List Field) (ep
     unfold St.init Markuper.init
     rw [if_neg hcr]
     exact ⟨_, rfl⟩
-  obtain ⟨hmarkups, herr⟩ := hmk s0 hs0
+  obtain ⟨hmarkups, herr⟩ := markupExact_of_c06 boundary fields epilogue chunks hb hf hnd hbody s0 hs0
   have hbodyOf : bodyOf ⟨maxMemfile, emap⟩ ⟨some (contentTypeFor boundary quote), cl, .ok chunks⟩ =
       .ok (chunks.flatten, some (feed s0 chunks)) := by
     unfold bodyOf
@@ -199,12 +239,11 @@ def exFields : List Field :=
 
 def exBody : Bytes := encodeForm cs!"b d" exFields CRLF
 
-/-- all hypotheses of `form_roundtrip` hold for the example, `MarkupExact` included, with the body
-delivered in two pieces -/
+/-- all hypotheses of `form_roundtrip` hold for the example, with the body delivered in two pieces -/
 example :
-    LegalBoundary cs!"b d" ∧ (∀ f ∈ exFields, FieldOK f) ∧
+    LegalBoundary cs!"b d" ∧ (∀ f ∈ exFields, FieldOK f) ∧ NoDelim cs!"b d" exFields ∧
     textBudget exFields ≤ 200 ∧ [exBody.take 70, exBody.drop 70].flatten = exBody := by
-  refine ⟨by decide, by decide, by decide, by simp⟩
+  refine ⟨by decide, by decide, by decide, by decide, by simp⟩
 
 example : MarkupExact (utf8Encode cs!"b d") (exFields.map Field.part) [exBody.take 70, exBody.drop 70] := by
   intro s0 h0
